@@ -23,16 +23,38 @@ Oracle (no model involved), per document:
   O4 a sample goes through the real services (create_workflows / create_workbook_v2, sqlite) and back through
      parser.get_workflow_spec_by_definition_id before and after clear_caches().
 
-Self-test (scratch worktrees of /repo, `VERIF_REPO=/tmp/wt_C14 ./check C14`, each gave a VIOLATION that the
-unchanged tree does not give):
-  M1 lang/base.py BaseSpecList.__init__: drop the isinstance(v, dict) guard      -> internal-error:TypeError@mistral/lang/base.py:__init__ (+ walk disagreement)
-  M2 lang/v2/tasks.py TaskSpec._process_action_and_workflow: merge inline params into a copy of `input`
-     instead of the stored dict                                                  -> stored-form / norm disagreement
-  M3 lang/parser.py _parse_def_from_wb: `ident <= temp` instead of `ident < temp`  -> slice:other + slice disagreement
-  M4 lang/types.py ONE_KEY_DICT: maxProperties 1 -> 2                              -> theorem/schema correspondence (walk) broken
-  M5 lang/v2/retry_policy.py: "required": ["delay", "count"] -> ["count"]          -> internal-error:KeyError@...retry_policy.py:__init__ and theorem C14_guards_retry broken
-  M6 lang/v2/workflows.py WorkflowSpec.__init__: inject task type only if missing  -> stored-form / norm disagreement
-See run() for the list of findings on the unchanged tree (internal errors D1-D8, slicing F3 family).
+Self-test (scratch worktrees of /repo, `VERIF_REPO=/tmp/wt_C14_mN ./check C14`; each adds a VIOLATION with a
+signature that the unchanged tree does not produce):
+  M1 lang/base.py BaseSpecList.__init__: drop the `isinstance(v, dict)` guard before v['name'] = k
+       -> internal-error:TypeError@mistral/lang/base.py:__init__  (+ 11 corpus/walk disagreements)
+  M2 lang/v2/workflows.py WorkflowSpec.__init__: task.setdefault('type', ...) instead of task['type'] = ...
+       -> internal-error:AttributeError@mistral/lang/v2/workflows.py:__init__ / :get_task_requires (+ walk disagreements)
+  M3 lang/parser.py _parse_def_from_wb: `ident <= temp` instead of `ident < temp`
+       -> slice:other (oracle O3) + 85 slice-model disagreements
+  M4 lang/v2/on_clause.py TASK_WITH_EXPRESSION: remove "minProperties": 1
+       -> internal-error:IndexError@mistral/lang/v2/on_clause.py:_as_tuple; proof obligation C14_guards_on_clause broken
+  M5 lang/v2/retry_policy.py: "required": ["delay", "count"] -> ["count"]
+       -> internal-error:KeyError@mistral/lang/v2/retry_policy.py:__init__; proof obligation C14_guards_retry broken
+  M6 utils/safe_yaml.py: remove fetch_alias / fetch_anchor (aliases expand again)
+       -> see run log: corpus `billion laughs` document is no longer a quick definition error
+
+Findings on the UNCHANGED tree (each has a minimal witness in CORPUS; the check prints one VIOLATION per signature
+until they are fixed or listed in known_findings.json):
+  internal-error:TypeError@mistral/lang/parser.py:_get_spec_version                  workbook text `5`, `true`, `version`
+  internal-error:TypeError@mistral/lang/base.py:instantiate_spec                    `type: [direct]` (unhashable polymorphic key)
+  internal-error:TypeError@mistral/lang/v2/workflows.py:__init__                    `tasks: {my-task: abc}`
+  internal-error:TypeError@mistral/lang/v2/tasks.py:_process_action_and_workflow    `action: std.echo output=1` + `input: <% $.p %>`
+  internal-error:TypeError@mistral/lang/base.py:validate_schema                     non-string YAML keys (`publish: {1: x}`, task `yes:`/`null:`)
+  internal-error:RecursionError@mistral/lang/base.py:validate_schema                400-deep invalid value (formatting the error message)
+  internal-error:RecursionError@mistral/utils/safe_yaml.py:load                     3000-deep flow sequence
+  internal-error:ValueError@mistral/utils/safe_yaml.py:load                         5000-digit integer
+  internal-error:RecursionError@mistral/expressions/jinja_expression.py:validate    2000 nested parentheses in a Jinja expression
+  accepted-unvalidated:wb-returns-None         `version: 2.0` / `version: '2'` in a workbook: get_workbook_spec returns None
+  stored-form:differs:nonstring-key            `input: {ports: {80: http}}` is stored as {"80": ...}
+  task-dropped:version                         a task named `version` is silently not part of the spec
+  slice:other-line-equals-name (F3)            a task named like a later workflow is returned as that workflow's definition
+  slice:member-line-not-plain                  `'wf1':`, `wf1 :`, `wf1: # c`, `wf1: {..}` -> the stored definition is "\n"
+  slice:section-name-occurs-earlier            `description: "my workflows: ..."` / an action called sync_workflows
 """
 import collections
 import copy
@@ -212,9 +234,21 @@ def _ok_str(s):
 MAX_DEPTH = 40
 
 
+MAX_NODES = 20000
+_NODES = [0]
+
+
+def jv_top(x):
+    _NODES[0] = 0
+    return jv(x)
+
+
 def jv(x, depth=0):
     if depth > MAX_DEPTH:
         raise Outside('deep')
+    _NODES[0] += 1
+    if _NODES[0] > MAX_NODES:
+        raise Outside('huge structure')
     if x is None:
         return 'JNull'
     if x is True or x is False:
@@ -307,15 +341,17 @@ NORM_FN = {'wf': 'norm_wf_list', 'wb': 'norm_wb', 'act': 'norm_action_list'}
 
 
 def walk_expr(kind, doc):
+    d = jv_top(doc)                     # first: fails fast on documents outside the model class
     ret, ppt, flt = tables(doc)
     if kind == 'wb':
-        return 'show (walk_wb (re_of_table %s) (pp_of_table %s) (fl_of_table %s) %s)' % (ret, ppt, flt, jv(doc))
-    return 'show (%s (re_of_table %s) (pp_of_table %s) %s)' % (WALK_FN[kind], ret, ppt, jv(doc))
+        return 'show (walk_wb (re_of_table %s) (pp_of_table %s) (fl_of_table %s) %s)' % (ret, ppt, flt, d)
+    return 'show (%s (re_of_table %s) (pp_of_table %s) %s)' % (WALK_FN[kind], ret, ppt, d)
 
 
 def norm_expr(kind, doc, expected):
+    d, e = jv_top(doc), jv_top(expected)
     _, ppt, _ = tables(doc)
-    return 'jv_eqb (%s (pp_of_table %s) %s) %s' % (NORM_FN[kind], ppt, jv(doc), jv(expected))
+    return 'jv_eqb (%s (pp_of_table %s) %s) %s' % (NORM_FN[kind], ppt, d, e)
 
 
 def compare_walk(model, real):
@@ -1120,7 +1156,7 @@ def process_doc(ctx, kind, text, origin, walk_batch, norm_batch, stats, expect=N
         return r
     stats['model']['walk'] += 1
     walk_batch.add(we, {'kind': kind, 'text': text, 'real': {'verdict': r['verdict'], 'trace': r['trace'], 'sig': r['sig']}})
-    if r['verdict'] == 'accept' and (origin == 'corpus' or ctx.thorough() or zlib.crc32(text.encode()) % 100 < 55):
+    if r['verdict'] == 'accept' and (origin == 'corpus' or zlib.crc32(text.encode()) % 100 < 55):
         try:
             ne = norm_expr(kind, raw0, r['spec'].to_dict())
             norm_batch.add(ne, {'kind': kind, 'text': text})
@@ -1171,7 +1207,7 @@ def suite_documents(ctx):
                 seeds.append((kind, boot()['safe_yaml'].load(text)))
     stats['bundled_accepted_seeds'] = len(seeds)
     # 3. workflow / workbook / action generator
-    n_gen = ctx.n(250, 4000)
+    n_gen = ctx.n(250, 2500)
     gens = []
     for _ in range(n_gen):
         kind, d = gen_definition(rng)
@@ -1180,7 +1216,7 @@ def suite_documents(ctx):
         process_doc(ctx, kind, text, 'generated', walk_batch, norm_batch, stats)
     seeds += gens[:max(60, n_gen // 4)]
     # 4. structure-aware mutation of valid definitions
-    for _ in range(ctx.n(1100, 20000)):
+    for _ in range(ctx.n(1100, 12000)):
         kind, base = rng.choice(seeds)
         d, ops = mutate(rng, base)
         for o in ops:
@@ -1194,7 +1230,7 @@ def suite_documents(ctx):
             kind = rng.choice(['wf', 'wb', 'act'])
         process_doc(ctx, kind, text, 'mutated', walk_batch, norm_batch, stats)
     # 5. malformed text stream
-    for _ in range(ctx.n(300, 5000)):
+    for _ in range(ctx.n(300, 3000)):
         kind, base = rng.choice(seeds)
         text = text_mutations(rng, dump_yaml(rng, base))
         process_doc(ctx, kind, text, 'text-mutated', walk_batch, norm_batch, stats)
@@ -1234,7 +1270,7 @@ def suite_slice(ctx, seeds):
     cases.append(("x workflows: y\n   a:  \n     b: 1\n\n\n", 'workflows:', 'a'))
     cases.append(("workflows:\n\ta:\n\t\tb: 1\n\tc:\n", 'workflows:', 'a'))
     wbs = [d for k, d in seeds if k == 'wb']
-    n = ctx.n(500, 8000)
+    n = ctx.n(500, 5000)
     while len(cases) < n:
         if wbs and rng.random() < 0.5:
             d = rng.choice(wbs)
